@@ -19,8 +19,9 @@ if [ $ok = 1 ]; then
   git apply "$DEMO" || { echo "demo does not apply on top of bug"; ok=0; }
 fi
 if [ $ok = 1 ]; then
-  out=$(cargo test --workspace --no-fail-fast --offline "$FILTER" 2>&1 | grep -E "^test result|FAILED|panicked" | head -5)
-  echo "$out" | grep -q "FAILED" && echo "demo fails with bug: yes" || { echo "demo does NOT fail with bug"; echo "$out"; ok=0; }
+  out=$(cargo test --workspace --no-fail-fast --offline "$FILTER" 2>&1 | grep -E "^test result|FAILED|panicked|overflowed its stack|signal: [0-9]+|error: test failed" | head -8)
+  # a demonstration that kills its test binary (stack overflow, abort) also counts as failing
+  echo "$out" | grep -qE "FAILED|overflowed its stack|signal: [0-9]+" && echo "demo fails with bug: yes" || { echo "demo does NOT fail with bug"; echo "$out"; ok=0; }
   git checkout -- . ; git clean -fdq; git apply "$DEMO"
   out=$(cargo test --workspace --no-fail-fast --offline "$FILTER" 2>&1 | grep -E "^test result|FAILED" )
   echo "$out" | grep -q "FAILED" && { echo "demo fails WITHOUT bug"; ok=0; } || echo "demo passes without bug: yes ($(echo "$out" | grep -oE '[0-9]+ passed' | awk '{s+=$1} END {print s}') tests)"
